@@ -9,7 +9,9 @@ EXPLANATION = (
     "through the same read map; R3 resize maps upper/lower through scale and bias and precision through scale only (all normal paths); R4 the inaccuracy comparison's "
     "input side is the normaliser's output, i.e. the transformed value (flags on (v-b)/s); R5 dtype comparisons against Python types use equality (a numpy dtype is "
     "never `is int`), so list inputs take the float promotion after the map; R6 indexing builds its element with Fxp(like=self) only (keeps scale/bias/scaled); "
-    "size inference uses the normaliser's output. Residual: binary64 exactness of the two affine steps.")
+    "size inference uses the normaliser's output. Residual: binary64 exactness of the two affine steps."
+    ' Added after the third round of seeded changes: constructor state (C20.R2): element views and like= objects start with their own fresh status record.'
+)
 ASSUMPTIONS = ["scale != 0", "np.dtype('int64') == int holds while `is int` does not (NumPy lemma)"]
 TRUSTED = ["CPython ast", "fxlint rational term normaliser"]
 
